@@ -2,14 +2,16 @@
 
 Scheduler decides: where clock drivers sit in the hierarchy (children inherit the nearest
 ancestor's), the enable history of every domain (stimulus, registers of other domains,
-registers inside the gated domain itself, enable wires 1-3 bits wide), the visit order of
+registers inside the gated domain itself, enable wires 1-3 bits wide), drivers placed on a block only after the
+simulator exists and has run (regate: no circuit added, then hw.getSimulator()), the visit order of
 drivers and clockables before every edge, re-sorts.  Faults: gate_stall (long and
-single-cycle), perm_drivers, perm_clockables, resort.
+single-cycle), regate, perm_drivers, perm_clockables, resort.
 Oracles: (1) stutter-equivalence / non-interference: every wire equals (a) the pure-Python
 reference in which a node takes an edge iff its nearest driver's enable was non-zero before
 the edge, and (b) a twin of real blocks whose clock() the harness calls under the same rule;
 (2) hold: no output of a block in a disabled domain changes across that edge.
 """
+import copy
 import random
 
 from ..core import Violation, shrink_list, h64
@@ -28,7 +30,7 @@ REAL = ['py4hw.simulation.Simulator._clk_cycle (enable test, per-driver clockAll
         'py4hw.logic.clock.GatedClock', 'sequential library blocks']
 STUB = ['stimulus']
 ASSUMPTIONS = ['reference models of dsim/catalog.py']
-PROBES = ['driver_on_block', 'top_driver_gated', 'enable_attached_late', 'disabled_edge', 'enabled_edge', 'self_gated', 'cross_domain_enable', 'wide_enable', 'nested_driver', 'gatedclock_idiom', 'single_cycle_stall', 'long_stall']
+PROBES = ['regated_after_run', 'driver_on_block', 'top_driver_gated', 'enable_attached_late', 'disabled_edge', 'enabled_edge', 'self_gated', 'cross_domain_enable', 'wide_enable', 'nested_driver', 'gatedclock_idiom', 'single_cycle_stall', 'long_stall']
 
 
 def gen(rs, tier, index):
@@ -81,6 +83,19 @@ def gen(rs, tier, index):
     order = list(d['order'])
     if rng.random() < 0.5:
         rng.shuffle(order)
+    # regate: one driver is only placed after the simulator exists and has run (no circuit is added, the block just
+    # moves to another domain), followed by hw.getSimulator()
+    rg = rs.get('regate')
+    cand = [('node:%s' % k, v) for k, v in sorted(nd.items())] + [(g, v) for g, v in sorted(gd.items()) if v['mode'] == 'input' and v['idiom'] != 'gatedclock']
+    if cand and rg.random() < 0.3:
+        key, dv = rg.choice(cand)
+        if key.startswith('node:'):
+            del nd[key[5:]]
+            if not nd:
+                d.pop('node_driver', None)
+        else:
+            del gd[key]
+        d['regate'] = {'key': key, 'drv': dict(dv, idiom='enable'), 'at': rg.randint(1, 6)}
     sr = rs.get('stimulus')
     fr = rs.get('faults')
     ncyc = sr.choice([20, 40, 80]) if tier == 'quick' else sr.choice([40, 120])
@@ -116,7 +131,8 @@ def gen(rs, tier, index):
 
 
 def run(scn, log, st):
-    d = scn['design']
+    d = copy.deepcopy(scn['design'])
+    regate = d.pop('regate', None)
     gd = d['group_driver']
     log.add('design', h64(repr(sorted((n['id'], n['kind'], tuple(n['ins']), tuple(n['grp'])) for n in d['nodes']))), repr(sorted(gd.items())))
     for g, dv in list(gd.items()):
@@ -149,6 +165,22 @@ def run(scn, log, st):
     run_len = {}
     for si, step in enumerate(scn['steps'], 1):
         rng = random.Random(step['pseed'])
+        if regate is not None and si == min(regate['at'], len(scn['steps'])):
+            key, dv = regate['key'], regate['drv']
+            if key.startswith('node:'):
+                tgt = b.objs[int(key[5:])]
+                d.setdefault('node_driver', {})[key[5:]] = dv
+            else:
+                tgt = b.groups[tuple(key.split('/'))]
+                d['group_driver'][key] = dv
+            b._attach_driver(tgt, dv)
+            with quiet():
+                sim = b.hw.getSimulator()
+            gd[key] = dv
+            dom_has_seq = {netlist.node_domain(d, n) for n in seqnodes}
+            st.probe('regated_after_run')
+            st.fault('regate')
+            regate = None
         if step['resort']:
             with quiet():
                 sim = b.hw.getSimulator()
@@ -222,6 +254,10 @@ def shrink(scn):
             yield c
     d = scn['design']
     gd = d['group_driver']
+    if d.get('regate'):
+        c = dict(scn)
+        c['design'] = {k: v for k, v in d.items() if k != 'regate'}
+        yield c
     for g in sorted(gd):
         nd = dict(d)
         nd['group_driver'] = {k: v for k, v in gd.items() if k != g}
